@@ -15,7 +15,8 @@
                       to a process younger than the caller; the root (lowest listed PID) has none;
     * `Chain`       : `parent()` iterated up to the root — or, on a table whose parent links are
                       cyclic, up to the first process that is already on the chain;
-    * `Recycled`    : the caller's PID now belongs to a process with another start time.
+    * `Recycled`    : the caller's PID now belongs to a process with another start time;
+    * `Alive`       : the caller's PID still belongs to the incarnation the object was built for.
 
   The executable functions at the end (`childList`, `descList`, `chainList`) are what the
   driver prints as `spec(x)`; they are saturation / iteration from the definitions, and
@@ -43,6 +44,10 @@ def UniquePids (links : PpidMap) : Prop := (links.map (·.1)).Nodup
 
 /-- the caller's PID now belongs to another process -/
 def Recycled (look : Look) (me : Caller) : Prop := ∃ s, look me.pid = some s ∧ s ≠ me.ctime
+
+/-- the incarnation the object was built for still owns its PID (otherwise it is gone — whether
+    or not the PID is listed again — and every call raises NoSuchProcess) -/
+def Alive (look : Look) (me : Caller) : Prop := look me.pid = some me.ctime
 
 /-! ### Table-level reading -/
 
